@@ -37,7 +37,24 @@ HIST_CLASSES = [
     "Poly1Dom<GFqDom<int64_t>,Dense>", "Poly1FactorDom<Modular<double>,Dense>", "Poly1FactorDom<GFqDom<int64_t>,Dense>",
     "IntRNSsystem<vector>", "RNSsystem<Integer,Modular<double>>",
 ]
-NON_ISO = {"Extension<GFqDom<int64_t>>"}      # constructor draws a random irreducible: no cross-process reference
+# constructors that draw a random irreducible polynomial (generator seeded from the clock): no cross-process reference
+NON_ISO = {"Extension<GFqDom<int64_t>>", "GFqDom<int64_t>", "GFqDom<int32_t>", "GFqExtFast<int64_t>", "GFqExt<int64_t>",
+           "Poly1Dom<GFqDom<int64_t>,Dense>", "Poly1FactorDom<GFqDom<int64_t>,Dense>"}
+GFQ_PARAMS = {0: (3, 2), 1: (5, 2), 2: (2, 4), 3: (7, 1)}          # as in harness/c16_history.C (GP, GE)
+
+
+def vecval_oracle(cls, p_idx):
+    """specification of GFqDom::init(Rep&, Vector) for a polynomial of degree < e: its p-adic value"""
+    p, e = GFQ_PARAMS[p_idx & 3]
+    if cls.startswith("GFqExt") and e == 1:
+        e = 2
+    out = []
+    for k in range(3):
+        v = (2 + k) % p
+        if e > 1:
+            v += ((1 + k) % p) * p
+        out.append(str(v))
+    return ";".join(out) + ";"
 
 
 # ------------------------------------------------------------------------------------------------ description + Coq
@@ -165,7 +182,7 @@ DIRECTED = [
 
 def gen_histories(rng, tier):
     hs = []
-    for pa, pb, pc, pd in ((0, 1, 2, 3), (1, 0, 3, 2), (2, 1, 0, 3)):
+    for pa, pb, pc, pd in ((0, 1, 2, 3), (1, 0, 3, 2)) + (((2, 3, 0, 1),) if tier != "quick" else ()):
         for h in DIRECTED:
             hs.append(h.replace("A", str(pa)).replace("B", str(pb)).replace("C", str(pc)).replace("D", str(pd)))
     nrand = 40 if tier == "quick" else 1500
@@ -241,6 +258,14 @@ def category(ev, obj):
     return "use" if n == obj else "use-other"
 
 
+def klass_of(evs, idx, ev, obj):
+    """input class of a divergence: anything at or after a self-assignment is keyed as such"""
+    for e in evs[:idx + 1]:
+        if e[0] == "a" and e[1] == e[3:]:
+            return "after-self-assign"
+    return category(ev, obj)
+
+
 def check_history(chk, cls, hist, steps, crash, iso):
     """compare every probe with the lineage's reference.  returns number of comparisons; reports the FIRST divergence per part"""
     ref = {}          # object -> (param, {part: hash})   reference of its lineage
@@ -272,9 +297,11 @@ def check_history(chk, cls, hist, steps, crash, iso):
                 e = exp.get(part)
                 if h is None:
                     continue          # crash inside this part: handled below
+                if part == "vecval":
+                    e = vecval_oracle(cls, p)          # independent specification, not the object's own earlier answer
                 if e is not None and h != e and part not in reported:
                     reported.add(part)
-                    chk.fail_input("history:%s:%s" % (cls, part), category(ev, o),
+                    chk.fail_input("history:%s:%s" % (cls, part), klass_of(evs, idx, ev, o),
                                    {"class": cls, "history": hist, "event_index": idx, "event": ev, "object": o, "lineage_param": p, "part": part},
                                    e, h, "probe of object %d differs from its lineage's reference after event %s (replay: echo '%s %s' | C16_VERBOSE=1 c16_history)"
                                    % (o, ev, cls, hist))
@@ -290,6 +317,8 @@ def check_history(chk, cls, hist, steps, crash, iso):
             ev = "end"            # crash in the destructors at the end of the history
         # attribute the crash to the most recent copy / assignment / destruction when it happens in a later event
         cat = category(ev, obj if obj is not None else (int(ev[1]) if ev != "end" and len(ev) > 1 else -1)) if ev != "end" else "destructors-at-end"
+        if any(e[0] == "a" and e[1] == e[3:] for e in evs[:len(steps) + 1]):
+            cat = "after-self-assign"
         if part not in reported:
             chk.fail_input("history:%s:%s" % (cls, part), cat,
                            {"class": cls, "history": hist, "crash": crash, "during_event": ev, "object": obj, "part": part}, "no crash", crash,
@@ -297,8 +326,36 @@ def check_history(chk, cls, hist, steps, crash, iso):
     return ncmp
 
 
+def run_parallel(binary, lines, jobs=6, timeout=3000):
+    """run the harness on chunks of the request list concurrently; returns (ok, output lines in request order, stderr)"""
+    import threading
+    n = max(1, min(jobs, len(lines) // 50 + 1))
+    chunks = [lines[i::n] for i in range(n)]
+    res = [None] * n
+
+    def work(i):
+        res[i] = vf.run_lines(binary, "".join(chunks[i]), timeout=timeout)
+    ts = [threading.Thread(target=work, args=(i,)) for i in range(n)]
+    for t in ts:
+        t.start()
+    for t in ts:
+        t.join()
+    out = [None] * len(lines)
+    err = ""
+    ok = True
+    for i in range(n):
+        rc, o, e = res[i]
+        err += e or ""
+        if len(o) != len(chunks[i]):
+            ok = False
+            continue
+        for j, l in enumerate(o):
+            out[i + j * n] = l
+    return ok, out, err
+
+
 def run_histories(chk, rng, tier, classes=None):
-    hb, log = vf.build_harness("c16_history.C")
+    hb, log = vf.build_harness("c16_history.C", deps=("c16_probes.h",))
     if hb is None:
         chk.broke("history harness does not compile against /repo", log)
         return 0
@@ -316,11 +373,10 @@ def run_histories(chk, rng, tier, classes=None):
         if crash is not None:
             chk.fail_input("history:%s:construct" % cls, "isolated", {"class": cls, "line": line[:200]}, "no crash", crash, "construction + probe in an empty process crashes")
     hists = gen_histories(rng, tier)
-    text = "".join("%s %s\n" % (c, h) for c in classes for h in hists)
-    rc, out, err = vf.run_lines(hb, text, timeout=3000)
     want = [(c, h) for c in classes for h in hists]
-    if len(out) != len(want):
-        chk.broke("history harness failed (rc=%s, %d/%d lines)" % (rc, len(out), len(want)), err)
+    ok, out, err = run_parallel(hb, ["%s %s\n" % (c, h) for c, h in want], jobs=6 if tier == "quick" else 12)
+    if not ok:
+        chk.broke("history harness failed (lost output lines)", err)
         return 0
     ncmp = 0
     per_class = {}
@@ -361,7 +417,7 @@ def main(tier, replay=None):
     ]
     if replay:
         rp = json.load(open(replay))
-        hb, log = vf.build_harness("c16_history.C")
+        hb, log = vf.build_harness("c16_history.C", deps=("c16_probes.h",))
         for f in rp.get("failing_inputs", []):
             c = f.get("case", {})
             if hb and "history" in c:
